@@ -1014,10 +1014,19 @@ func rebuild(t *Term, a []*Term) *Term {
 		return Select(a[0], a[1])
 	case OStore:
 		return Store(a[0], a[1], a[2])
-	case OForall:
-		return Forall(t.Bnd, a[0])
-	case OExists:
-		return Exists(t.Bnd, a[0])
+	case OForall, OExists:
+		var r *Term
+		if t.Op == OForall {
+			r = Forall(t.Bnd, a[0])
+		} else {
+			r = Exists(t.Bnd, a[0])
+		}
+		// keep the typed-variable information of contract quantifiers across substitution (instantiation of an
+		// outer quantifier must not make the inner one anonymous)
+		if qi := quantInfo[t]; qi != nil && (r.Op == OForall || r.Op == OExists) && quantInfo[r] == nil {
+			quantInfo[r] = &qInfo{Vars: qi.Vars, Body: r.Args[0]}
+		}
+		return r
 	case ORAdd, ORSub, ORMul, ORDiv, ORLt, ORLe:
 		return rbin(t.Op, a[0], a[1])
 	case ORNeg:
@@ -1221,7 +1230,7 @@ func collectDecls(ts []*Term) (syms []*decl, sorts []string, quant bool, hasReal
 func BuildQuery(assumps []*Term, goal *Term, wantModel bool, extra []*Term) string {
 	all := append(append([]*Term{}, assumps...), goal)
 	all = append(all, extra...)
-	syms, sorts, _, _ := collectDecls(all)
+	syms, sorts, hasQ, _ := collectDecls(all)
 	var sb strings.Builder
 	if wantModel {
 		sb.WriteString("(set-option :produce-models true)\n")
@@ -1261,11 +1270,50 @@ func BuildQuery(assumps []*Term, goal *Term, wantModel bool, extra []*Term) stri
 	for _, d := range syms {
 		have[d.name] = true
 	}
+	// In a query without other quantifiers the axioms are emitted as their instances at the string terms that occur
+	// (injectivity of the encoding on those terms is all a quantifier-free proof can use); this keeps the query
+	// quantifier-free, which cvc5 in particular needs to answer at all.
+	var strArgs []*Term
+	if !hasQ {
+		seenA := map[*Term]bool{}
+		var walk func(t *Term)
+		walk = func(t *Term) {
+			if seenA[t] {
+				return
+			}
+			seenA[t] = true
+			if t.Op == OApp && (t.Name == "strid" || t.Name == "strcid") && len(t.Args) == 1 {
+				strArgs = append(strArgs, t)
+			}
+			for _, a := range t.Args {
+				walk(a)
+			}
+		}
+		for _, t := range all {
+			walk(t)
+		}
+	}
 	if have["strcid"] && have["cidstr"] {
-		sb.WriteString("(assert (forall ((s!ax Str)) (= (cidstr (strcid s!ax)) s!ax)))\n")
+		if hasQ {
+			sb.WriteString("(assert (forall ((s!ax Str)) (= (cidstr (strcid s!ax)) s!ax)))\n")
+		}
 	}
 	if have["strid"] {
-		sb.WriteString("(declare-fun idstr ((_ BitVec 64)) Str)\n(assert (forall ((s!ax Str)) (= (idstr (strid s!ax)) s!ax)))\n")
+		sb.WriteString("(declare-fun idstr ((_ BitVec 64)) Str)\n")
+		if hasQ {
+			sb.WriteString("(assert (forall ((s!ax Str)) (= (idstr (strid s!ax)) s!ax)))\n")
+		}
+	}
+	for _, t := range strArgs {
+		inv := "idstr"
+		if t.Name == "strcid" {
+			if !have["cidstr"] {
+				continue
+			}
+			inv = "cidstr"
+		}
+		a := p.str(t.Args[0])
+		fmt.Fprintf(&sb, "(assert (= (%s (%s %s)) %s))\n", inv, t.Name, a, a)
 	}
 	for _, a := range asserts {
 		sb.WriteString(a + "\n")
